@@ -75,6 +75,14 @@ def check_table(prog, r):
                 r.ok(desc + ": StartLlgrTimers")
             else:
                 r.fail(fv.name, "into-LlgrStaling:" + key, "edge %s enters LlgrStaling without StartLlgrTimers" % desc, fv.loc(a.block))
+        # (ii') hand-over from the restart timer to LLGR: the families held as GR-stale that get no LLGR timer must be deleted
+        # on this edge (no timer and no End-of-RIB will ever come for them)
+        if inp == frozenset({"TimerExpired"}) and src == frozenset({"PeerRestarting"}) and "LlgrStaling" in real:
+            if may & {"DeleteStaleRoutes"}:
+                r.ok(desc + ": GR-stale families without an LLGR timer are deleted at the hand-over")
+            else:
+                r.fail(fv.name, "llgr-handover-keeps-gr-only-families", "edge %s starts LLGR timers for the LLGR families and forgets `stale_families`: a family negotiated for GR but not for LLGR "
+                       "stays GR-stale with no timer armed and no End-of-RIB awaited" % desc, fv.loc(a.block))
         # (iii)/(v) stale-holding -> Idle must delete
         if src <= STALE_STATES and "Idle" in real:
             want = {"PeerRestarting": "DeleteStaleRoutes", "LlgrStaling": "DeleteLlgrStaleRoutes"}
